@@ -78,13 +78,16 @@ package transaction
 //@   bytes: key
 //@   at call(RunOnRange) assert covers: arg_startKey <= start && (arg_endKey == "" || end < arg_endKey)
 
-// The flush callback keeps [pipelinedStart, pipelinedEnd] a cover of every key it has flushed: after a flush of a
-// non-empty buffer the bounds enclose that buffer's smallest and largest key, and the bounds only ever widen.
+// The flush callback keeps [pipelinedStart, pipelinedEnd] a cover of every key it has flushed: the bounds enclose the
+// buffer's smallest and largest key already when the flush requests are sent (a flush that fails half-way has written
+// locks too), and the bounds only ever widen.
 // (minKeyOf/maxKeyOf: internal/unionstore/art contract file. Keys are non-empty: an empty bound means "none yet".)
 //@ func (*KVTxn) InitPipelinedMemDB$2
 //@   prop C16
 //@   bytes: key
 //@   opaque-callee Flags HasValue Value Key Handle Next Valid Push pipelinedFlushMutations throttlePipelinedTxn newMemBufferMutations NewBackofferWithVars
+//@   at call(pipelinedFlushMutations) assert tracked: minKeyOf(memdb.ART) != "" ==> txn.committer.pipelinedCommitInfo.pipelinedStart != "" &&
+//@       txn.committer.pipelinedCommitInfo.pipelinedStart <= minKeyOf(memdb.ART) && maxKeyOf(memdb.ART) <= txn.committer.pipelinedCommitInfo.pipelinedEnd
 //@   ensures bounds: err == nil && memdb.Len() != 0 && minKeyOf(memdb.ART) != "" ==> txn.committer.pipelinedCommitInfo.pipelinedStart != "" &&
 //@       txn.committer.pipelinedCommitInfo.pipelinedStart <= minKeyOf(memdb.ART) && maxKeyOf(memdb.ART) <= txn.committer.pipelinedCommitInfo.pipelinedEnd
 //@   ensures widen: txn.committer == old(txn.committer) && minKeyOf(memdb.ART) != "" ==> (old(txn.committer.pipelinedCommitInfo.pipelinedStart) != "" ==> txn.committer.pipelinedCommitInfo.pipelinedStart != "" &&
@@ -92,10 +95,19 @@ package transaction
 
 // Commit of a pipelined transaction: the primary alone is committed first; only after that succeeded (committed is set)
 // is the tracked range of flushed keys resolved - with the commit outcome and the very bounds the flushes recorded.
+// The background resolution runs under the store's context, not the caller's (which is usually cancelled right after
+// Commit returns): storeCtxOf(s) names the context s.Ctx() answers.
+//@ spec func storeCtxOf(s kvstore) context.Context
+//@ func (kvstore) Ctx
+//@   trusted
+//@   pure
+//@   ensures result == storeCtxOf(recv)
+
 //@ func (*twoPhaseCommitter) commitFlushedMutations
 //@   prop C16
 //@   bytes: key
-//@   opaque-callee GetTimestampForCommit commitMutations broadcastToAllStores NewBackofferWithVars resolveFlushedLocks
+//@   opaque-callee GetTimestampForCommit commitMutations broadcastToAllStores resolveFlushedLocks
+//@   at def(commitBo) assert detached: commitBo.ctx == storeCtxOf(c.store)
 //@   at call(commitMutations) assert primary: len(primaryMutation.keys) == 1 && primaryMutation.keys[0] == c.primaryKey
 //@   at call(resolveFlushedLocks) assert outcome: arg_commit && c.mu.committed && arg_start == c.pipelinedCommitInfo.pipelinedStart && arg_end == c.pipelinedCommitInfo.pipelinedEnd
 //@   ensures committed: result == nil ==> c.mu.committed
@@ -104,5 +116,6 @@ package transaction
 //@ func (*KVTxn) Rollback
 //@   prop C16
 //@   bytes: key
-//@   opaque-callee rollbackPessimisticLocks close FlushWait broadcastToAllStores NewBackofferWithVars resolveFlushedLocks spawnWithStorePool
+//@   opaque-callee rollbackPessimisticLocks close FlushWait broadcastToAllStores resolveFlushedLocks spawnWithStorePool
+//@   at def(rollbackBo) assert detached: rollbackBo.ctx == storeCtxOf(txn.store)
 //@   at call(resolveFlushedLocks) assert outcome: !arg_commit && arg_start == txn.committer.pipelinedCommitInfo.pipelinedStart && arg_end == txn.committer.pipelinedCommitInfo.pipelinedEnd && arg_start != "" && arg_end != ""
